@@ -76,6 +76,46 @@ fn norm(ts: impl ToTokens) -> String {
     ts.to_token_stream().to_string().replace(' ', "")
 }
 
+/// canonical text of a constant expression: integer literals in decimal (no radix prefix, `_` or type suffix),
+/// durations as `secs(N)` whatever path `Duration` is written with; so that harmless rewrites of the source
+/// (`0x40` -> `64`, `std::time::Duration` -> `Duration`) do not change it.
+fn canon_const(ts: impl ToTokens) -> String {
+    fn walk(ts: proc_macro2::TokenStream, out: &mut String) {
+        for tt in ts {
+            match tt {
+                proc_macro2::TokenTree::Literal(l) => {
+                    let t = l.to_string();
+                    match syn::parse_str::<syn::LitInt>(&t) {
+                        Ok(i) => match i.base10_parse::<u128>() {
+                            Ok(v) => out.push_str(&v.to_string()),
+                            Err(_) => out.push_str(&t),
+                        },
+                        Err(_) => out.push_str(&t),
+                    }
+                }
+                proc_macro2::TokenTree::Group(g) => {
+                    let (a, b) = match g.delimiter() {
+                        proc_macro2::Delimiter::Parenthesis => ("(", ")"),
+                        proc_macro2::Delimiter::Brace => ("{", "}"),
+                        proc_macro2::Delimiter::Bracket => ("[", "]"),
+                        proc_macro2::Delimiter::None => ("", ""),
+                    };
+                    out.push_str(a);
+                    walk(g.stream(), out);
+                    out.push_str(b);
+                }
+                other => out.push_str(&other.to_string()),
+            }
+        }
+    }
+    let mut s = String::new();
+    walk(ts.to_token_stream(), &mut s);
+    for p in ["std::time::Duration::from_secs", "tokio::time::Duration::from_secs", "core::time::Duration::from_secs", "Duration::from_secs"] {
+        s = s.replace(p, "secs");
+    }
+    s
+}
+
 /// Parse `number = .., length = .., encoding = ..` (zvt_bmp) exactly like ZvtBmp::parse.
 fn parse_bmp(tokens: proc_macro2::TokenStream) -> Result<(Option<u16>, Option<syn::TypePath>, Option<syn::TypePath>), String> {
     let parser = |s: syn::parse::ParseStream| -> syn::Result<(Option<u16>, Option<syn::TypePath>, Option<syn::TypePath>)> {
@@ -755,7 +795,7 @@ fn main() {
         struct V<'a>(&'a mut BTreeMap<String, Value>, Vec<String>);
         impl<'ast, 'a> syn::visit::Visit<'ast> for V<'a> {
             fn visit_item_const(&mut self, c: &'ast syn::ItemConst) {
-                self.0.insert(c.ident.to_string(), Value::String(norm(&c.expr)));
+                self.0.insert(c.ident.to_string(), Value::String(canon_const(&c.expr)));
             }
             fn visit_item_mod(&mut self, m: &'ast syn::ItemMod) {
                 if !is_cfg_test(&m.attrs) {
@@ -778,8 +818,8 @@ fn main() {
                     if let syn::Expr::MethodCall(inner) = &*m.receiver {
                         if inner.method == "throttle" {
                             let f = self.1.last().cloned().unwrap_or_default();
-                            let thr = inner.args.first().map(|e| norm(e)).unwrap_or_default();
-                            let take = m.args.first().map(|e| norm(e)).unwrap_or_default();
+                            let thr = inner.args.first().map(|e| canon_const(e)).unwrap_or_default();
+                            let take = m.args.first().map(|e| canon_const(e)).unwrap_or_default();
                             self.0.insert(format!("RETRY[{f}]"), Value::String(format!("throttle={thr} take={take}")));
                         }
                     }
